@@ -23,6 +23,22 @@ def chain_order(inp):
                         'matches_reverse': bool(np.allclose(got, x @ y))})
         if cc.get_single_site_controls(2, post) is not None:
             bad.append({'post': post, 'unexpected controls at step 2': True})
+        # controls registered out of chronological order (site by site): every one must be found at its own step
+        cc = ChainControl([2, 2, 2])
+        cc.add_single_site_control(x, 0, 4, post=post)
+        cc.add_single_site_control(y, 2, 1, post=post)
+        cc.add_single_site_control(x, 1, 4, post=post)
+        cc.add_single_site_control(y, 0, 1, post=post)
+        for step, want in ((1, {0: y, 2: y}), (4, {0: x, 1: x}), (2, None)):
+            got = cc.get_single_site_controls(step, post)
+            if want is None:
+                ok = got is None
+            else:
+                ok = got is not None and all((got[s] is None) if s not in want else (got[s] is not None and np.allclose(got[s], want[s])) for s in range(3))
+            if not ok:
+                bad.append({'post': post, 'step': step, 'registration order': 'step 4, step 1, step 4, step 1',
+                            'sites with a control': None if got is None else [s for s in range(3) if got[s] is not None],
+                            'required sites': None if want is None else sorted(want)})
     return {'violates': bool(bad), 'detail': bad, 'required': 'second-added @ first-added (insertion order)'}
 
 
